@@ -47,10 +47,17 @@ type zvC18Case struct {
 	// a second set of prefixes queued at the same time (interleaved) whose path differs from the first in one attribute
 	Second string `json:"second_set_differs_in"`
 	N2     int    `json:"second_set_count"`
+	// NH6 (IPv4 multiprotocol sessions, internal profiles): the path's next hop is an IPv6 address (RFC 8950 style):
+	// MP_REACH_NLRI then carries 16 instead of 4 next hop octets
+	NH6 bool `json:"ipv6_next_hop,omitempty"`
 }
 
 func (c zvC18Case) String() string {
-	return fmt.Sprintf("%s addpath=%v %s as_path=%d ASNs unknown_attr=%d bytes, %d x /%d + tail %v, flush by ticker=%v (%s)", zvC18Fams[c.Fam], c.AP, zvC18Profiles[c.Profile], c.ASNs, c.Unk, c.N, c.PLen, c.Tail, c.Tick, c.Regime) + c.secondString()
+	nh6 := ""
+	if c.NH6 {
+		nh6 = "/ipv6-next-hop"
+	}
+	return fmt.Sprintf("%s addpath=%v %s as_path=%d ASNs unknown_attr=%d bytes, %d x /%d + tail %v, flush by ticker=%v (%s)", zvC18Fams[c.Fam]+nh6, c.AP, zvC18Profiles[c.Profile], c.ASNs, c.Unk, c.N, c.PLen, c.Tail, c.Tick, c.Regime) + c.secondString()
 }
 
 func (c zvC18Case) secondString() string {
@@ -61,6 +68,14 @@ func (c zvC18Case) secondString() string {
 }
 
 func (c zvC18Case) v6() bool { return c.Fam == 2 }
+
+// nhAddr is the path's next hop (and source) address
+func (c zvC18Case) nhAddr(last byte) *bnet.IP {
+	if c.NH6 {
+		return bnet.IPv6FromBlocks(0x2001, 0xdb8, 0, 0, 0, 0, 0, uint16(last)).Dedup()
+	}
+	return c.addr(last)
+}
 
 func (c zvC18Case) addr(last byte) *bnet.IP {
 	if c.v6() {
@@ -218,7 +233,7 @@ func (c zvC18Case) pathOf(second bool) *route.Path {
 	p := &route.Path{Type: route.BGPPathType, BGPPath: route.NewBGPPath()}
 	a := p.BGPPath.BGPPathA
 	a.Source = c.addr(30)
-	a.NextHop = c.addr(30)
+	a.NextHop = c.nhAddr(30)
 	a.BGPIdentifier = 30
 	a.EBGP = true
 	a.LocalPref = 100
@@ -291,7 +306,7 @@ func (c zvC18Case) expectedOf(second bool) (map[byte][]byte, []byte) {
 	if second && c.Second == "as-path" {
 		segs[0].ASNs[0] = 64000
 	}
-	nh := c.addr(30).Bytes()
+	nh := c.nhAddr(30).Bytes()
 	if c.Profile == 2 {
 		// exported over eBGP: local AS prepended (new segment if the first is full), next hop = local address
 		if len(segs) > 0 && len(segs[0].ASNs) < 255 {
@@ -689,11 +704,18 @@ func zvC18Enumerate(thorough bool, visit func(c zvC18Case) bool) {
 	if thorough {
 		hiA, hiAS, bulkL = 80, 32, 40
 	}
-	for fam := 0; fam < 3; fam++ {
+	for fam := 0; fam < 4; fam++ {
 		for _, ap := range []bool{false, true} {
 			for _, prof := range profiles {
 				for _, tick := range []bool{false, true} {
 					base := zvC18Case{Fam: fam, AP: ap, Profile: prof, Tick: tick}
+					if fam == 3 {
+						// IPv4 multiprotocol session, paths with an IPv6 next hop (internal profiles: an external session sets its own address)
+						if prof == 2 {
+							continue
+						}
+						base.Fam, base.NH6 = 1, true
+					}
 					plens := zvC18PLens(fam == 2, false)       // one prefix length per NLRI byte size
 					bulkLens := zvC18PLens(fam == 2, thorough) // thorough: also lengths that are not a multiple of 8
 					if fam == 2 && thorough {
